@@ -8,6 +8,7 @@
 import FlacModel.Model.Decode
 import FlacModel.Spec.Rfc
 import FlacModel.Proofs.Machine
+import FlacModel.Proofs.Dot
 import FlacModel.Model.Md5
 
 namespace Flac.C03
@@ -40,32 +41,33 @@ theorem wrapS32_add_wrap (r t : Int) : wrapS 32 (r + wrapS 32 t) = wrapS 32 (r +
     defines whenever THAT SAMPLE fits 32 bits — even if the prediction alone does not (32-bit audio
     with large coefficients): the truncation of the prediction and the wrap of the sum cancel. -/
 theorem wrap_add_correct (p : Profile) (r sum : Int) (shift : Nat) (hs : shift < 64)
-    (hfit : fitsS 32 (r + sum / 2 ^ shift) = true) :
+    (hsum : fitsS 64 sum = true) (hfit : fitsS 32 (r + sum / 2 ^ shift) = true) :
     predictStep p 32 r sum shift = .ok (r + sum / 2 ^ shift) := by
-  simp only [predictStep, decPredictStep32, if_true, bind, Except.bind, pure, Except.pure, shrX_ok p 64 _ _ shift hs]
-  first
-    | (simp only [castS, wrapS32_add_wrap, wrapS32_of_fits _ hfit])
-    | (simp only [addS, castS]
-       -- trapping variant of the source: only provable when the prediction itself fits
-       fail)
+  simp only [predictStep, decDot, wrapS64_of_fits _ hsum, decPredictStep32, if_true, bind, Except.bind, pure, Except.pure,
+    shrX_ok p 64 _ _ shift hs, castS, wrapS32_add_wrap, wrapS32_of_fits _ hfit]
 
 /-- **predict_refines_spec**: the whole prediction loop reproduces the specification's exact
-    reconstruction whenever every reconstructed sample fits 32 bits -/
+    reconstruction whenever every reconstructed sample fits 32 bits (coefficients ≤ 16 bits and at
+    most 32 taps, as the format allows) -/
 theorem predict_refines_spec (p : Profile) (coefs : List Int) (shift : Nat) (hs : shift < 64)
+    (hc : ∀ c ∈ coefs, fitsS 16 c = true) (hl : coefs.length ≤ 32)
     (rs hist : List Int) (hfit : ∀ x ∈ Spec.restore coefs shift hist rs, fitsS 32 x = true) :
     predictGo p 32 coefs shift hist rs = .ok (Spec.restore coefs shift hist rs) := by
+  have hmem : ∀ l : List Int, ∀ h0 : List Int, ∀ y ∈ h0, y ∈ Spec.restore coefs shift h0 l := by
+    intro l
+    induction l with
+    | nil => intro h0 y hy; simp [Spec.restore, hy]
+    | cons a l ihl => intro h0 y hy; exact ihl _ y (by simp [hy])
   induction rs generalizing hist with
   | nil => simp [predictGo, Spec.restore]
   | cons r rs ih =>
-    have hmem : ∀ l : List Int, ∀ h0 : List Int, ∀ y ∈ h0, y ∈ Spec.restore coefs shift h0 l := by
-      intro l
-      induction l with
-      | nil => intro h0 y hy; simp [Spec.restore, hy]
-      | cons a l ihl => intro h0 y hy; exact ihl _ y (by simp [hy])
     have hx : fitsS 32 (r + Spec.dot hist coefs / 2 ^ shift) = true :=
       hfit _ (hmem rs ((r + Spec.dot hist coefs / 2 ^ shift) :: hist) _ (by simp))
+    have hh : ∀ y ∈ hist, fitsS 32 y = true := fun y hy => hfit y (hmem (r :: rs) hist y hy)
+    have hsum : fitsS 64 (Spec.dot hist coefs) = true := by
+      rw [← dot_eq_spec]; exact dot_fits64 hist coefs hh hc hl
     simp only [predictGo, Spec.restore, dot_eq_spec]
-    rw [wrap_add_correct p r (Spec.dot hist coefs) shift hs hx]
+    rw [wrap_add_correct p r (Spec.dot hist coefs) shift hs hsum hx]
     exact ih _ (fun x hx' => hfit x (by simpa [Spec.restore] using hx'))
 
 /-- **unfold_is_zigzag**: the crate's `(msb << k) | lsb` in `u32` followed by its sign un-folding
@@ -133,15 +135,13 @@ theorem decLayout_eq_rfc (bs order po : Nat) (sizes : List Nat)
 
 /-! ### stereo reconstruction = RFC formulas when the outputs fit (depth ≤ 31) -/
 
-theorem leftside_refines_spec (p : Profile) (l s : Int) (hl : fitsS 32 l = true) (hs : fitsS 32 s = true)
-    (hout : fitsS 32 (l - s) = true) : decLeftSide p l s = .ok (l - s) := by
-  simp only [decLeftSide, subS, bind, Except.bind, pure, Except.pure]
-  rw [resS_eq p 32 _ (l - s) (l - s) rfl hout]
+theorem leftside_refines_spec (p : Profile) (l s : Int) (hout : fitsS 32 (l - s) = true) :
+    decLeftSide p l s = .ok (l - s) := by
+  simp only [decLeftSide, bind, Except.bind, pure, Except.pure, wrapS32_of_fits _ hout]
 
 theorem sideright_refines_spec (p : Profile) (s r : Int) (hout : fitsS 32 (s + r) = true) :
     decSideRight p s r = .ok (s + r) := by
-  simp only [decSideRight, addS, bind, Except.bind, pure, Except.pure]
-  rw [resS_eq p 32 _ (s + r) (s + r) rfl hout]
+  simp only [decSideRight, bind, Except.bind, pure, Except.pure, wrapS32_of_fits _ hout]
 
 /-- mid/side: for a mid sample of depth ≤ 31 and a side sample of depth ≤ 32 whose reconstructed
     left and right fit 31 bits, the decoder's `sum = mid*2 + |side| % 2; (sum ± side) >> 1` equals
@@ -153,35 +153,27 @@ theorem midside_refines_spec (p : Profile) (m s : Int) (hm : fitsS 31 m = true) 
   rw [fitsS31_iff] at hm hL hR
   rw [fitsS32_iff] at hs
   have habs : 0 ≤ (if s < 0 then -s else s) := by split <;> omega
+  have w1 : wrapS 32 (m * 2) = 2 * m := by rw [wrapS32_of_fits _ (by rw [fitsS32_iff]; omega)]; omega
+  have w2 : wrapS 32 (if s < 0 then -s else s) = (if s < 0 then -s else s) :=
+    wrapS32_of_fits _ (by rw [fitsS32_iff]; split <;> omega)
   have hpar : remS (if s < 0 then -s else s) 2 = s % 2 := by
     rw [remS_two_nonneg _ habs]; split <;> omega
-  simp only [midSide32, decMidSum, decMidLeft, decMidRight, mulS, absS, addS, subS, bind, Except.bind, pure, Except.pure]
-  rw [resS_eq p 32 _ (m * 2) (2 * m) (by omega) (by rw [fitsS32_iff]; omega)]
-  simp only []
-  rw [resS_eq p 32 _ _ _ rfl (show fitsS 32 (if s < 0 then -s else s) = true by rw [fitsS32_iff]; split <;> omega)]
-  simp only [hpar]
-  rw [resS_eq p 32 _ (2 * m + s % 2) (2 * m + s % 2) rfl (by rw [fitsS32_iff]; omega)]
-  simp only []
-  rw [resS_eq p 32 _ (2 * m + s % 2 + s) (2 * m + s % 2 + s) rfl (by rw [fitsS32_iff]; omega)]
-  simp only []
-  rw [resS_eq p 32 _ (2 * m + s % 2 - s) (2 * m + s % 2 - s) rfl (by rw [fitsS32_iff]; omega)]
-  simp only []
-  have e1 : (2 * m + s % 2 + s) / 2 ^ 1 = (2 * m + s % 2 + s) / 2 := by simp
-  have e2 : (2 * m + s % 2 - s) / 2 ^ 1 = (2 * m + s % 2 - s) / 2 := by simp
-  rw [e1, e2]
+  have w3 : wrapS 32 (2 * m + s % 2) = 2 * m + s % 2 := wrapS32_of_fits _ (by rw [fitsS32_iff]; omega)
+  have w4 : wrapS 32 (2 * m + s % 2 + s) = 2 * m + s % 2 + s := wrapS32_of_fits _ (by rw [fitsS32_iff]; omega)
+  have w5 : wrapS 32 (2 * m + s % 2 - s) = 2 * m + s % 2 - s := wrapS32_of_fits _ (by rw [fitsS32_iff]; omega)
+  simp only [midSide32, decMidSum, decMidLeft, decMidRight, bind, Except.bind, pure, Except.pure, w1, w2, hpar, w3, w4, w5]
+  simp
 
 /-- the 33-bit side path: `(left as i64 − side) as i32` is the exact difference when it fits -/
 theorem wide_leftside_refines_spec (p : Profile) (l s : Int) (hl : fitsS 32 l = true)
     (hs : -4294967296 ≤ s ∧ s < 4294967296) (hout : fitsS 32 (l - s) = true) :
     decLeftSideWide p l s = .ok (l - s) := by
-  rw [fitsS32_iff] at hl
-  have hc : castS 64 l = l := by
-    simp only [castS, wrapS]
-    have h : (2 : Int) ^ 64 = 18446744073709551616 := by decide
-    rw [h]; split <;> omega
-  simp only [decLeftSideWide, subS, bind, Except.bind, pure, Except.pure, hc]
-  rw [resS_eq p 64 _ (l - s) (l - s) rfl (by rw [fitsS64_iff]; omega)]
-  simp only [castS, wrapS32_of_fits _ hout]
+  have hl' := (fitsS32_iff l).mp hl
+  have h32 : castS 32 l = l := wrapS32_of_fits l hl
+  have hc : castS 64 l = l := wrapS64_of_fits l (by rw [fitsS64_iff]; omega)
+  have hw : wrapS 64 (l - s) = l - s := wrapS64_of_fits _ (by rw [fitsS64_iff]; omega)
+  have ho : castS 32 (l - s) = l - s := wrapS32_of_fits _ hout
+  simp only [decLeftSideWide, bind, Except.bind, pure, Except.pure, h32, hc, hw, ho]
 
 /-- MD5 verdict of `verify_reader` as a function of the stored digest and the decoded PCM -/
 def verifyVerdict (stored : List Nat) (pcmLeBytes : List Nat) : String :=
@@ -204,6 +196,6 @@ theorem md5_verify_iff (stored pcm : List Nat) :
     the reconstructed sample 2³¹−1 does -/
 example : predictStep .debug 32 (-2147483647) (2 * 2147483647) 0 = .ok 2147483647
     ∧ fitsS 32 (2 * 2147483647 : Int) = false := by
-  refine ⟨wrap_add_correct .debug _ _ 0 (by decide) (by decide), by decide⟩
+  refine ⟨wrap_add_correct .debug _ _ 0 (by decide) (by decide) (by decide), by decide⟩
 
 end Flac.C03
